@@ -9,53 +9,54 @@ import (
 
 // Profile tunes the application generator. The zero value generates tiny static apps.
 type Profile struct {
-	MaxNodes     int    // nodes besides _catch (>=1)
-	MaxExt       int    // external symbols
-	FlagCount    uint32 // user flags available (indices 8..8+FlagCount-1)
-	Sinks        bool   // size-0 symbols
-	MSink        bool   // MSINK menus
-	Menus        bool   // MOUT entries
-	Browse       bool   // MNEXT/MPREV and < > targets
-	Catch        bool   // CATCH instructions
-	Croak        bool   // CROAK instructions
-	ExtFlags     bool   // external results set/reset user flags
-	ExtReserved  bool   // flag lists include reserved indices 0..5
-	ExtTerminate bool   // flag lists may include TERMINATE (6)
-	ExtLang      bool   // external results may switch language
-	ExtErrPct    int    // chance (percent) that a behaviour is an error
-	OversizePct  int    // chance (percent) that a sized result exceeds its limit
-	BigValues    bool   // results around and above 64 KiB
-	EmptyPct     int    // chance (percent) of an empty result
-	DupSelectors bool   // duplicate selectors within one node (C03)
-	WildAnywhere bool   // wildcard INCMP not necessarily last (C03)
-	RelTargets   bool   // relative targets _ ^ . in INCMP/MOVE
-	UpAtRoot     bool   // allow '_' targets in the root node (failing move)
-	EndNodes     bool   // graceful and abnormal end nodes
-	Translations bool   // translated templates/labels
-	MultiRowTpl  bool   // newlines in static template text
-	MaxRows      int    // sink rows
-	EmptyRows    bool   // empty and trailing-empty sink rows
-	CatchShape   int    // -1 random, else fixed shape of _catch
-	NoCatchNode  bool   // do not define _catch (never used for well-formed apps)
-	SingleRoute  bool   // after a HALT exactly one candidate: one "INCMP t *" or one MOVE t
-	NegMapProbe  bool   // templates may reference a symbol mapped only before the last move (C05)
-	RelWeight    int    // weight of relative targets against 6 for named ones (default 3)
-	EndWeight    int    // weight of each kind of end node against 6 for menu nodes (default 1)
-	CatchLoad    bool   // the catch node may LOAD a symbol
-	BadUTF8      bool   // some results carry bytes that are not valid UTF-8
-	Refresh      bool   // nodes that render twice (… HALT; RELOAD …; HALT; INCMP …)
-	SizeFlip     bool   // a sink symbol is loaded under a size limit in some nodes
-	EndAfterInput bool  // end nodes of the shape HALT; INCMP t 1; HALT
-	FallMove     bool   // menu nodes that end in a MOVE behind their INCMP lines
-	BrowseSwap   bool   // now and then MPREV is written before MNEXT
-	PoolFlags    bool   // with many flags: CATCH/CROAK and external code draw from a small pool of indices (boundaries favoured), so that they meet
-	flagPool     []uint32
-	HugePages    bool   // accepted values of about 65535 bytes (pages just over 64 KiB)
-	PreludeIncmp bool   // INCMP lines before a node's HALT
-	ManySyms     bool   // up to 28 external symbols, nodes that load up to 20 of them
-	Unicode      bool   // multi-byte UTF-8 in labels, translations, static template text and padded values
-	StaticSyms   bool   // some external symbols are static-load symbols with per-language entries
-	InputWeight  int    // weight of input-consuming nodes (HALT .. MOVE) against 6 for menu nodes (default 2)
+	MaxNodes       int    // nodes besides _catch (>=1)
+	MaxExt         int    // external symbols
+	FlagCount      uint32 // user flags available (indices 8..8+FlagCount-1)
+	Sinks          bool   // size-0 symbols
+	MSink          bool   // MSINK menus
+	Menus          bool   // MOUT entries
+	Browse         bool   // MNEXT/MPREV and < > targets
+	Catch          bool   // CATCH instructions
+	Croak          bool   // CROAK instructions
+	ExtFlags       bool   // external results set/reset user flags
+	ExtReserved    bool   // flag lists include reserved indices 0..5
+	ExtTerminate   bool   // flag lists may include TERMINATE (6)
+	ExtLang        bool   // external results may switch language
+	ExtErrPct      int    // chance (percent) that a behaviour is an error
+	OversizePct    int    // chance (percent) that a sized result exceeds its limit
+	BigValues      bool   // results around and above 64 KiB
+	EmptyPct       int    // chance (percent) of an empty result
+	DupSelectors   bool   // duplicate selectors within one node (C03)
+	WildAnywhere   bool   // wildcard INCMP not necessarily last (C03)
+	RelTargets     bool   // relative targets _ ^ . in INCMP/MOVE
+	UpAtRoot       bool   // allow '_' targets in the root node (failing move)
+	EndNodes       bool   // graceful and abnormal end nodes
+	Translations   bool   // translated templates/labels
+	MultiRowTpl    bool   // newlines in static template text
+	MaxRows        int    // sink rows
+	EmptyRows      bool   // empty and trailing-empty sink rows
+	CatchShape     int    // -1 random, else fixed shape of _catch
+	NoCatchNode    bool   // do not define _catch (never used for well-formed apps)
+	SingleRoute    bool   // after a HALT exactly one candidate: one "INCMP t *" or one MOVE t
+	NegMapProbe    bool   // templates may reference a symbol mapped only before the last move (C05)
+	RelWeight      int    // weight of relative targets against 6 for named ones (default 3)
+	EndWeight      int    // weight of each kind of end node against 6 for menu nodes (default 1)
+	CatchLoad      bool   // the catch node may LOAD a symbol
+	BadUTF8        bool   // some results carry bytes that are not valid UTF-8
+	Refresh        bool   // nodes that render twice (… HALT; RELOAD …; HALT; INCMP …)
+	SizeFlip       bool   // a sink symbol is loaded under a size limit in some nodes
+	EndAfterInput  bool   // end nodes of the shape HALT; INCMP t 1; HALT
+	FallMove       bool   // menu nodes that end in a MOVE behind their INCMP lines
+	ReloadAfterMap bool   // now and then a mapped symbol is RELOADed behind its MAP, before the page is shown
+	BrowseSwap     bool   // now and then MPREV is written before MNEXT
+	PoolFlags      bool   // with many flags: CATCH/CROAK and external code draw from a small pool of indices (boundaries favoured), so that they meet
+	flagPool       []uint32
+	HugePages      bool // accepted values of about 65535 bytes (pages just over 64 KiB)
+	PreludeIncmp   bool // INCMP lines before a node's HALT
+	ManySyms       bool // up to 28 external symbols, nodes that load up to 20 of them
+	Unicode        bool // multi-byte UTF-8 in labels, translations, static template text and padded values
+	StaticSyms     bool // some external symbols are static-load symbols with per-language entries
+	InputWeight    int  // weight of input-consuming nodes (HALT .. MOVE) against 6 for menu nodes (default 2)
 }
 
 var langPool = []string{"nor", "swa", "fra", "deu"}
@@ -68,9 +69,9 @@ func nodeName(i int) string {
 }
 
 type genNode struct {
-	kind     int
-	back     bool // action node with relative target (only targeted after a HALT)
-	relT     string
+	kind int
+	back bool // action node with relative target (only targeted after a HALT)
+	relT string
 }
 
 // Generate draws an application from the tape.
@@ -433,6 +434,13 @@ func Generate(t *tape.Tape, p Profile) *App {
 		}
 		for _, s := range mapped {
 			code = append(code, Inst{Op: MAP, A: s})
+		}
+		if p.ReloadAfterMap {
+			for _, s := range mapped {
+				if reloadable(s) && t.Chance(1, 4) {
+					code = append(code, Inst{Op: RELOAD, A: s})
+				}
+			}
 		}
 		// a CATCH after the MAPs (negative mapping probe): the target's template references a symbol
 		// that only THIS node maps, so the target must fail to render when the CATCH fires
